@@ -544,7 +544,7 @@ func createMisc() {
 		ArgTypes: []object.Type{object.ANY},
 		Callback: func(st any, _ string, args []object.Object) object.Object {
 			s := st.(*eval.State)
-			o := args[0]
+			o := object.Value(args[0]) // ANY typed argument: may be a reference to an outer variable.
 			switch o.Type() {
 			case object.INTEGER:
 				return o
